@@ -162,7 +162,7 @@ def meta(tier):
     return {
         'functions': loader.functions_encoded(fns), 'sig': sig,
         'bounds': 'shape level: operands of order 1..2 (3 for tensor pairs; thorough 3) whose mode sizes and ranks are symbolic integers in [1,3] (thorough [1,4]); every kind pair (tensor/operator/dense); '
-                  'finite argument classes (str, None, list, dict, dense tensor); index/axis/permutation/arity arguments as listed in the harness; one symbolic run per structure covers every size in the bound',
+                  'finite argument classes (str, None, list, dict, dense tensor); index/axis/permutation/arity arguments as listed in the harness; TT(dense, shape) with source dims in [1,4]; one symbolic run per structure covers every size in the bound',
         'outside': 'sizes above the bound; values (no data at this level); AMEn/cross entry points; the exact exception class is only compared for documented cases',
         'assumptions': ['shapetorch models the shape calculus and the shape errors of torch (validated per run against real torch on seeded sizes)',
                         'rank selection is havoc (any rank in range) at this level; factorizations return factors of the contractually right shape',
